@@ -64,15 +64,15 @@ def enum_cond():
                                             "lit": lit}, env)
 
 
-def leaf(name, op="==", litv=1):
-    return {"k": "cond", "l": name, "lcal": True, "op": op, "rk": "lit", "r": "", "rcal": False, "lit": crit.lit_num(False, litv)}
+def leaf(name, op="==", litv=1, cal=True):
+    return {"k": "cond", "l": name, "lcal": cal, "op": op, "rk": "lit", "r": "", "rcal": False, "lit": crit.lit_num(False, litv)}
 
 
 def shapes(depth, kind, budget):
     """all ANDed/ORed groups of the given kind with at most `budget` leaves and nesting <= depth; leaves are A or B"""
     other = "or" if kind == "and" else "and"
     out = []
-    leaves = [leaf("A"), leaf("B")]
+    leaves = [leaf("A"), leaf("B"), leaf("A", cal=False)]     # the third differs from the first only in the value selector
     for nc in range(0, 3):
         for conds in itertools.product(leaves, repeat=nc):
             rem = budget - nc
@@ -100,7 +100,8 @@ def enum_bool(depth, budget):
     exprs = [leaf("A")] + shapes(depth, "and", budget) + shapes(depth, "or", budget)
     for e in exprs:
         for a, b in itertools.product((0, 1), repeat=2):
-            env = [{"name": "A", "v": crit.tv_int(a), "r": crit.tv_int(a)}, {"name": "B", "v": crit.tv_int(b), "r": crit.tv_int(b)}]
+            # A's raw value is the complement of its derived value, so that the two selectors disagree
+            env = [{"name": "A", "v": crit.tv_int(a), "r": crit.tv_int(1 - a)}, {"name": "B", "v": crit.tv_int(b), "r": crit.tv_int(b)}]
             yield case("bool", e, env)
 
 
